@@ -32,7 +32,7 @@ MANIFEST = dict(
           "action, other-index and unstorable-index action, not-JSON, valid/damaged/oversize document, empty line) with and without "
           "final newline. TLC proves Characterised (deviating bodies = 4 named classes) for all bodies <= 4 lines (quick) / 5 lines "
           "(thorough) and Conforms for the patched transcription. All exported bodies (<= 3 lines + seeded sample of 4 in quick; "
-          "<= 4 + simulated 5-6 line bodies in thorough) are posted to the real handler; items are compared position-wise with "
+          "<= 4 + 10 000 simulated 5-6 line bodies in thorough) are posted to the real handler; items are compared position-wise with "
           "Required, documents are searched by marker after flush, item reports are compared with the stand-alone report of the "
           "same action, and the transcription's prediction is checked against the real response (drift = exit 2)."),
     note=("Observation point is HandleBulkBody's response map (what ProcessBulkRequest serialises when at least one item "
@@ -247,11 +247,17 @@ def _reasons(lines, items, obs, stored, s, alone):
 
 
 def consumed(lines, s, nitems):
-    """per real item: the classes of the lines its action consumed under parse s"""
+    """per real item: the classes of the lines that are the action's own under parse s (action line + its document line;
+    an update owns the line after it)"""
     out = []
-    for k, it in enumerate(s[:nitems]):
-        end = s[k + 1]["a"] if k + 1 < len(s) else len(lines) + 1
-        out.append(tuple(lines[it["a"] - 1:end - 1]))
+    for it in s[:nitems]:
+        a, d = it["a"], it["d"]
+        if d:
+            out.append((lines[a - 1], lines[d - 1]))
+        elif lines[a - 1] == "UPD" and a < len(lines):
+            out.append((lines[a - 1], lines[a]))
+        else:
+            out.append((lines[a - 1],))
     return out
 
 
@@ -274,8 +280,9 @@ def run_chunk(binary, chunk):
             stored = {int(m.split("L")[1]): n for m, n in got.items()}
             res.append((bno, obs, stored))
     except vlib.DriverDead as e:
-        if e.kind == "hang":
-            raise vlib.Infra("engine did not answer in time (machine load?): %s" % e)
+        if e.kind == "hang" or e.rc in (-15, -9, -2):
+            # no answer in time, or the process was killed from outside (SIGTERM/SIGKILL/SIGINT): not the engine's doing
+            raise vlib.Infra("engine did not answer in time or was killed from outside (machine load / cleanup?): %s" % e)
         res.append((chunk[len(res)][0], {"died": str(e)}, {}))
     finally:
         if dr is not None:
@@ -360,7 +367,7 @@ def run(chk):
         chk.add_tlc("Gen_Bulk", rg, "export of all bodies <= 4 lines")
         if not quick:
             gs = write_cfg(sc, "Gen_Bulk_sim_cur.cfg", "Gen_Bulk_sim.cfg", flags)
-            sim, rs = vlib.tlc_generate("Gen_Bulk", "Gen_Bulk_sim_cur.cfg", timeout=900, simulate="num=60000", depth=60,
+            sim, rs = vlib.tlc_generate("Gen_Bulk", "Gen_Bulk_sim_cur.cfg", timeout=900, simulate="num=25000", depth=60,
                                         seed=chk.seed, extra_files=[gs])
             chk.add_tlc("Gen_Bulk_sim", rs, "simulation: bodies of 5-6 lines")
             sim = vlib.dedup([x for x in sim if len(x["lines"]) >= 5], key=lambda x: (tuple(x["lines"]), x["nl"]))
@@ -376,13 +383,26 @@ def run(chk):
         # every 4-line body the model flags as deviating shape is rare; sample uniformly + keep interesting ones likelier
         sel = short + vlib.sample(four, 4500, chk.seed)
     else:
-        sel = beh + vlib.sample(sim, 30000, chk.seed)
+        sel = beh + vlib.sample(sim, 10000, chk.seed)
     rnd = random.Random(chk.seed)
     rnd.shuffle(sel)
     jobs = [(i + 1, chk.seed * 1000003 + i, b) for i, b in enumerate(sel)]
     size = 60
     chunks = [jobs[i:i + size] for i in range(0, len(jobs), size)]
-    results = vlib.pmap(lambda c: run_chunk(binary, c), chunks, workers=WORKERS)
+    retried = []
+
+    def chunk_with_retry(c):
+        # a hang / missing answer under machine load is infrastructure: the chunk is replayed once more on a fresh engine
+        try:
+            return run_chunk(binary, c)
+        except vlib.Infra as e:
+            if "hang" not in str(e) and "did not answer" not in str(e):
+                raise
+            retried.append(str(e)[:200])
+            return run_chunk(binary, c)
+
+    results = vlib.pmap(chunk_with_retry, chunks, workers=WORKERS)
+    chk.cov["chunks_retried_after_hang"] = len(retried)
     byno = {}
     for rs in results:
         for (bno, obs, stored) in rs:
